@@ -9,6 +9,6 @@ CONSTANTS
   MaxTicks = 3
   Weaken = "none"
   StopRoles <- NoRoles
-INVARIANTS TypeOK Fidelity NoSilentCorruption NoFalseSuccess CleanRunSucceeds AckWithinSaved
+INVARIANTS TypeOK ClaimsAll Fidelity NoSilentCorruption NoFalseSuccess CleanRunSucceeds AckWithinSaved
 PROPERTIES Termination
 CHECK_DEADLOCK FALSE
